@@ -24,6 +24,7 @@ import SkModel.Fault
 import SkModel.Spec.Lines
 import SkModel.Fast
 import SkModel.StdTs
+import SkModel.Searcher
 
 open Lean Sk
 
@@ -742,8 +743,18 @@ def runStdTsCase (j : Json) : Json :=
   let bs := (arrF j "bytes").toList.map asNat
   Json.arr ((stdTsTable (natF j "W") bs 0 []).map fun p => Json.arr #[toJson p.1, toJson p.2]).toArray
 
+/-- `FileSearcher.add` history -> is the file-level constraint applied to each queried path -/
+def runGApplyCase (j : Json) : Json :=
+  let ops : List AddOp := (arrF j "ops").toList.map fun o =>
+    { search := natF o "search", expanded := (arrF o "expanded").toList.map asStr,
+      agc := boolF o "agc" }
+  let s := SearcherSt.addAll {} ops
+  Json.mkObj [("restr", toJson s.restr),
+    ("applies", Json.arr ((arrF j "paths").map fun p => toJson (s.globalApplies (asStr p))))]
+
 def handle (j : Json) : Json :=
   match strF j "kind" with
+  | "gapply" => Json.mkObj [("model", runGApplyCase j)]
   | "stdts" => Json.mkObj [("model", runStdTsCase j)]
   | "task" => Json.mkObj [("model", runTaskCase j), ("specSimple", specSimpleCase j),
                           ("specSeq", specSeqCase j), ("specGate", specGateCase j),
